@@ -433,7 +433,11 @@ def balanceLoopO {α : Type} (W : WOps α) :
 def balanceO {α : Type} (W : WOps α) (parallelism : Nat) (queries : List Json) :
     Outcome (Except AppErr (List (List Json))) :=
   if queries.isEmpty then .ok (.ok [])
-  else balanceLoopO W queries (List.replicate parallelism W.zero) (List.replicate parallelism [])
+  else
+    -- never more bins than queries (`parallelism.min(queries.len())`): `vec![0.0; parallelism]` made a huge
+    -- parallelism abort the process with an allocation failure
+    let n := min parallelism queries.length
+    balanceLoopO W queries (List.replicate n W.zero) (List.replicate n [])
 
 /-! ### `CompassApp::run` -/
 
